@@ -197,7 +197,9 @@ pub fn derive_seed(seed: u64, parts: &[u64]) -> [u8; 32] {
 
 impl Ctx {
     pub fn new(id: &str, tier: Tier, seed: u64) -> Self {
-        let known = KnownFindings::load().for_property(id);
+        // VERIF_IGNORE_KNOWN=1 (development aid): treat every finding as unlisted, so that the
+        // listed ones are shrunk and saved as replay files
+        let known = if std::env::var("VERIF_IGNORE_KNOWN").is_ok() { vec![] } else { KnownFindings::load().for_property(id) };
         let workers = std::env::var("VERIF_WORKERS")
             .ok()
             .and_then(|s| s.parse().ok())
